@@ -1,4 +1,6 @@
+mod debug_tree;
 mod itemlist;
+mod modelop;
 mod model;
 mod placement;
 mod util;
@@ -14,6 +16,7 @@ fn main() {
     match argv[1].as_str() {
         "itemlist-replay" => itemlist::replay(&args),
         "itemlist-record" => itemlist::record(&args),
+        "model-op" => modelop::run(&args),
         "placement-replay" => placement::replay(&args),
         "placement-record" => placement::record(&args),
         other => {
